@@ -63,7 +63,6 @@ MSG_RT = [
     H(MSGS, 'h_rt_gossip_timestamp_filter', 'msgs', 'rt_gossip_timestamp_filter', ['[u8;32]', 'u32', 'u32'], 'GossipTimestampFilter survives encode -> decode unchanged', ['GossipTimestampFilter::write', 'GossipTimestampFilter::read_from_fixed_length_buffer']),
     H(MSGS, 'h_canon_update_fee', 'msgs', 'canon_update_fee', ['[u8;36]'], 'every 36-byte buffer decodes as UpdateFee and re-encodes to itself (decoding total on the fixed part, canonical)', ['UpdateFee::read_from_fixed_length_buffer']),
     H(WIRE, 'h_is_even_unknown', 'wire', 'is_even_unknown', ['u16'], 'a message type must be understood ("even") exactly when its low bit is clear', ['wire::Message::is_even', 'wire::Message::type_id']),
-    H(MSGS, 'hb_rt_ping', 'msgs', 'rt_ping', ['u16', 'u16'], 'Ping survives encode -> decode', ['Ping::write', 'Ping::read_from_fixed_length_buffer'], bounded='payload length <= 3 bytes', thorough=True),
 ]
 
 ONION_H = [
